@@ -131,10 +131,12 @@ def _observe(ctx, bm, spec):
     out = {'labels': [pbk.labels(d) for d in td.decoded_descriptors_all_subsets],
            'values': [list(v) for v in td.decoded_values_all_subsets],
            'links': [dict(l) for l in td.bitmap_links_all_subsets],
+           # what the text renderings print next to each label: the width actually in force for that value
+           'widths': [[getattr(d, 'nbits', None) for d in ds] for ds in td.decoded_descriptors_all_subsets],
            'key': bm.table_group_key}
     out['nested'] = NestedJsonRenderer().render(bm)[-2][-1]['value']
     out['flat'] = FlatJsonRenderer().render(bm)[-2][-1]
-    q = DataQuerent(NodePathParser()).query(bm, '%06d' % spec['ids'][0])
+    q = DataQuerent(NodePathParser()).query(bm, '%06d' % [i for i in spec['ids'] if i < 100000 and i // 1000 != 31][0])
     out['query'] = q.all_values(flat=True)
     return out
 
@@ -233,6 +235,16 @@ def h_history(ctx):
         for k in ref:
             if not _eq(ref[k], obs[k]):
                 return {'what': 'decoding after a history differs from the fresh decode', 'aspect': k, 'history': history}
+        # the OTHER message decoded by the object with this history equals its decode by a brand-new object
+        try:
+            late = _observe(ctx, dec.process(B), b.spec)
+            fresh = _observe(ctx, Decoder(compiled_template_cache_max=cache_max if p.get('compiled') else None).process(B), b.spec)
+        except Exception as e:
+            return {'what': 'decoding the other message raised', 'exc': repr(e)[:200], 'history': history}
+        for k in late:
+            if not _eq(late[k], fresh[k]):
+                return {'what': 'a decoder that handled other messages before decodes differently from a new one', 'aspect': k,
+                        'history': history}
         # and the first message object itself still renders the same
         obs1 = _observe(ctx, first, a.spec)
         for k in ref:
